@@ -60,7 +60,7 @@ def r11a(model, ctx):
 
 def r11b(model, ctx):
     R = "R-11b"
-    fn = model.func(f"{PYRTL}::_FragmentCompiler.__call__")
+    fn = model.func_expanded(f"{PYRTL}::_FragmentCompiler.__call__")
     mod = model.mod(PYRTL)
     # the sync memory block
     blocks = [s for s in ast.walk(fn) if isinstance(s, ast.If) and unparse(s.test) == "isinstance(fragment, MemoryInstance)"
